@@ -86,6 +86,11 @@ def run(ctx, pid):
                   name="blobfee_points", workers=6, timeout=2400, coverage=False,
                   sink=lambda pre, v: items.append(numify(v, L)) if pre == "EDGE" else None)
     run_.lines["EDGE"] = items
+    far = [it for it in items if it["op"]["op"] == "calc_blob_gasprice" and int(it["op"]["excess"], 16) >= 10 ** 9]
+    unfit = [it for it in items if it["op"]["op"] == "calc_blob_gasprice" and not it["post"]["fits"]]
+    if len(far) != 8 or len(unfit) <= len(far):
+        raise vf.ToolError("vacuous: expected 8 far points (4 arguments x 2 fractions) and computed points whose price "
+                           "leaves 128 bits, got %d / %d" % (len(far), len(unfit)))
     summ = vf.replay_edges(ctx, res, run_, "blobfee", name="blobfee_points", binary=binary, expect_ops=OPS)
     res.extra["cases_per_operation"] = summ.get("ops")
     res.exhaustive = False
